@@ -59,6 +59,7 @@ def main(tier):
             ck.fail("R-C03-2", "take:rhs-weight", site_t, "%s: %s" % (sk, probs[0]))
         if S.dom.oob:
             ck.fail("R-C03-2", "out-of-range", S.dom.oob[0][3], "%s: access %s[%s] of length %s" % ((sk,) + S.dom.oob[0][:3]))
+        n_oob_ops = len(S.dom.oob)
         Ag = tables[(True, True)]
         # ---- R-C03-8: the sequential branch of computeResidual
         S1 = tab_ops.Setting(prog, nr, nt, nsc, dirbc, threads=1)
@@ -231,6 +232,10 @@ def main(tier):
                     ck.violation("R-C03-4", "coarse-cache:%s" % nm, "src/Level/levelCache.cpp", "%s: %s" % (key, probs[0]))
                 else:
                     ck.ok("R-C03-4", key)
+        # out-of-range accesses met while interpreting the rhs functions and the cache constructors of this shape
+        if S.dom.oob[n_oob_ops:]:
+            o = S.dom.oob[n_oob_ops]
+            ck.fail("R-C03-7", "out-of-range:%s" % o[0], o[3], "%s: access %s[%s] of length %s in the rhs / cache functions" % ((sk,) + tuple(o[:3])))
     ck.extra["identity_tests"] = dag.N_TESTS[0]
     return ck.finish(
         "The residual operator in both strategies and the LevelCache constructors are interpreted from /repo's source with integers "
